@@ -235,7 +235,14 @@ def task_validation(kind):
              ((0, 5, True, None), ex.InvalidArgumentTypeException), ((0, 5, 1, True), ex.InvalidArgumentTypeException),
              ((-1, 5, 1, None), ex.InvalidArgumentValueException), ((6, 5, 1, None), ex.InvalidArgumentValueException),
              (("0", 5, 1, None), ex.InvalidArgumentTypeException), ((0, "5", 1, None), ex.InvalidArgumentTypeException),
-             ((0, 5, -1, None), ex.InvalidArgumentValueException)]
+             ((0, 5, -1, None), ex.InvalidArgumentValueException),
+             # min_decimal < 1 together with an explicit max_decimal, equal-comparing non-integers
+             ((0, 5, 0, 3), ex.InvalidArgumentValueException), ((0, 5, 0, 0), ex.InvalidArgumentValueException),
+             ((0, 5, 0, 1), ex.InvalidArgumentValueException), ((17, 120, -1, 2), ex.InvalidArgumentValueException),
+             ((0, 5, 3, 2), ex.InvalidArgumentValueException), ((0, 5, 2.0, 2), ex.InvalidArgumentTypeException),
+             ((0, 5, 2, 2.0), ex.InvalidArgumentTypeException), ((0, 5.0, 1, None), ex.InvalidArgumentTypeException),
+             ((0.0, 5, 1, None), ex.InvalidArgumentTypeException), ((True, 5, 1, None), ex.InvalidArgumentTypeException),
+             ((0, True, 1, None), ex.InvalidArgumentTypeException), ((0, 5, None, 2), ex.InvalidArgumentTypeException)]
     for variant, _ in VARIANTS:
         for args, exc in cases:
             try:
@@ -255,6 +262,31 @@ def task_validation(kind):
     return {"name": "decimal argument validation (%d cases)" % (len(cases) * len(VARIANTS)), "status": "discharged"}
 
 
+def e1_cases(tier):
+    """fraction-length bounds symbolic: InvalidArgumentValueException iff min_decimal < 1 or min_decimal > max_decimal; otherwise the
+    emitted text parses and its last repeat is exactly {min_decimal, max_decimal} over a digit class"""
+    from vlib.symx import engine
+    hi = 3 if tier == "quick" else 5
+    pre = "-2 <= mn and mn <= %d and (mx is None or (-2 <= mx and mx <= %d))" % (hi, hi)
+    cs = []
+    ctors = ["Decimal(0, 9, mn, mx)", "UnsignedDecimal(0, 9, mn, mx, True)"]
+    if tier == "thorough":
+        ctors += ["Decimal(3, 12, mn, mx)", "PositiveDecimal(0, 9, mn, mx)", "NegativeDecimal(1, 20, mn, mx, True)", "Decimal(0, 5, mn, mx, True, True)"]
+    for call in ctors:
+        body = "\n".join([
+            "bad = mn < 1 or (mx is not None and mn > mx)",
+            "try:", "    p = %s" % call,
+            "except InvalidArgumentValueException:", "    return bad",
+            "if bad:", "    return False",
+            "t = [x for x in ptree(str(p)) if x[0] != 'AT']",
+            "dots = [i for i in range(len(t)) if t[i] == ('LITERAL', 46)]",
+            "if not dots:", "    return False",
+            "return t[dots[-1] + 1:] == quant_tree(mn, mx, True, ptree(chr(92) + 'd'))"])
+        cs.append(engine.raw_case(body, [("mn", "int"), ("mx", "Opt[int]")], [pre],
+                                  "%s: exception iff invalid fraction bounds, else fraction repeat == {mn, mx}, bounds in [-2, %d] / None" % (call, hi)))
+    return cs
+
+
 def run(tier):
     run = common.Run(PROP, tier)
     run.known.probe()
@@ -270,6 +302,8 @@ def run(tier):
         pairs = [(a, b) for a in B for b in B if a <= b] + [(0, 2147483647), (1, 2147483647)]
         decs = [(1, None), (1, 1), (1, 3), (2, 2), (2, None), (3, 5)]
         Lcap, Lspan = 10, 6
+    from vlib.symx import engine
+    cases = e1_cases(tier)
     tasks = [("task_spec_selfcheck", (300,)), ("task_validation", ("bounds",))]
     for (s, e) in pairs:
         for (mn, mx) in decs:
@@ -278,8 +312,13 @@ def run(tier):
                     L = min(len(str(e)) + 1 + min(mx or mn + 1, 3) + 2 + (1 if ext else 0), Lcap)
                     tasks.append(("task_decimal", (variant, inc, s, e, mn, mx, ext, L, Lspan)))
     run.add(common.run_tasks(__name__, tasks, progress=200))
+    outs = engine.run_cases(cases, per_condition_timeout=240 if tier == "quick" else 1200)
+    run.add(engine.to_results(cases, outs))
+    run.info = {"crosshair_harnesses": len(cases), "crosshair_paths_explored": sum(r.get("paths", 0) for r in run.results)}
     run.triage(REGIONS)
-    run.bounds = {"configs": "%d ranges x %d fraction bounds x 5 variants x 2 extensibility" % (len(pairs), len(decs)),
+    run.bounds = {"E1": "%d harnesses with SYMBOLIC min_decimal, max_decimal in [-2, %d] / None: InvalidArgumentValueException iff min < 1 or min > max, "
+                        "otherwise the text after the last '.' parses as the repeat {min, max} of \\d" % (len(cases), 3 if tier == "quick" else 5),
+                  "configs": "%d ranges x %d fraction bounds x 5 variants x 2 extensibility" % (len(pairs), len(decs)),
                   "text_length": "<= %d (all spans up to N=%d, whole text beyond)" % (Lcap, Lspan),
                   "characters": "all of Unicode minus Unicode-only \\d\\s\\w members"}
     run.assumptions = ["sign rules as documented (props/C16.py sign_rule); embedded spans asserted only with edge/space neighbours; "
